@@ -32,6 +32,13 @@ type c05Base struct {
 func genC05Base(t *rapid.T) c05Base {
 	var b c05Base
 	b.Key, _ = genAuthKeyDistinctSides(t, "key")
+	// A hand-built AuthKey whose cached ID was never computed (the zero id; the crypto
+	// package's own tests build such keys): Encrypt stamps that id, Decrypt compares with it,
+	// so a flipped auth_key_id bit must still be refused (seeded change C05d).
+	zeroID := rapid.IntRange(0, 7).Draw(t, "zeroID") == 0
+	if zeroID {
+		b.Key.ID = [8]byte{}
+	}
 	b.FromServer = rapid.Bool().Draw(t, "fromServer")
 	n := 4 * rapid.IntRange(0, 80).Draw(t, "len4")
 	b.Payload = drawBytes(t, "payload", n)
@@ -39,7 +46,7 @@ func genC05Base(t *rapid.T) c05Base {
 	seq := rapid.Int32().Draw(t, "seq")
 	b.Fields = [4]int64{salt, session, msgID, int64(seq)}
 	s, _ := drawStream(t, "rand")
-	if rapid.Bool().Draw(t, "byRef") {
+	if !zeroID && rapid.Bool().Draw(t, "byRef") {
 		b.Producer = "reference"
 		base := (16 - (32+n)%16) % 16
 		if base < 12 {
